@@ -53,6 +53,11 @@ impl Story {
         self.continue_internal(millisecs_limit_async)
     }
 
+    #[cfg(bladeink_verif)]
+    pub(crate) fn verif_async_active(&self) -> bool {
+        self.async_continue_active
+    }
+
     pub(crate) fn if_async_we_cant(&self, activity_str: &str) -> Result<(), StoryError> {
         if self.async_continue_active {
             return Err(StoryError::InvalidStoryState(format!(
@@ -116,6 +121,11 @@ impl Story {
             }
 
             if output_stream_ends_in_newline {
+                break;
+            }
+
+            #[cfg(bladeink_verif)]
+            if self.async_continue_active && crate::verif::clock_tick() {
                 break;
             }
 
@@ -342,6 +352,13 @@ impl Story {
     }
 
     pub(crate) fn step(&mut self) -> Result<(), StoryError> {
+        #[cfg(bladeink_verif)]
+        if !crate::verif::take_fuel() {
+            return Err(StoryError::InvalidStoryState(
+                "VERIF: out of fuel".to_owned(),
+            ));
+        }
+
         let mut should_add_to_stream = true;
 
         // Get current content
